@@ -1118,6 +1118,12 @@ def fixed_cases(quick=True):
     # finding C03-7: brainpool certificate in TLS 1.3, the server's more_sig_schemes exclude the brainpool schemes
     case(smod={'more_sig_schemes': ['Ed25519']}, s_cert='bp256')
     case(cmod={'more_sig_schemes': ['Ed25519']}, smod={'more_sig_schemes': ['Ed25519']}, s_cert='bp256')
+    # /repo ba94cd5: matching external PSK whose hash fits none of the offered suites -> certificate handshake
+    for h, ciph in (('sha384', ['aes128gcm']), (None, ['aes256gcm']), ('sha384', ['aes128gcm', 'aes256gcm']), ('sha384', ['chacha20-poly1305'])):
+        for scert in ('rsa', None):
+            kw = {'s_cert': scert} if scert else {}
+            case(cmod={'psks': [(0, h)], 'cipherNames': ciph}, smod={'psks': [(0, h)]}, **kw)
+            case(cmod={'psks': [(0, h)]}, smod={'psks': [(0, h)], 'cipherNames': ciph}, **kw)
     out += resume_cases()
     return out + boundary_key_cases() + boundary_version_cases() + value_sweep_cases() + policy_lattice_cases(quick)
 
